@@ -82,3 +82,4 @@ pub mod g_glue;
 pub mod u_subs;
 pub mod g_effects;
 pub mod g_notify;
+pub mod g_two;
